@@ -242,9 +242,19 @@ func TestC17(t *testing.T) {
 			if err := oracle(c); err != nil {
 				hx.Fail(t, run, c, err)
 			}
+			pool.Add(c)
 		})
 	})
+	if t.Failed() {
+		return
+	}
+	t.Run("concurrent", func(t *testing.T) {
+		// error replies of several callers (and of several clients of a process) are converted at the same time
+		hx.RunConcurrent(t, run, pool.Items, 8, run.Pick(20, 400), oracle)
+	})
 }
+
+var pool hx.Pool[Case]
 
 func sortStrings(s []string) {
 	for i := 1; i < len(s); i++ {
